@@ -1,6 +1,6 @@
 (* Driver for the extracted C02 model (coq/C02/Model.v).  One case per stdin line.
 
-   c02_model parse [pinned|spec]
+   c02_model parse [pinned|spec|old]   (pinned = spec since fix 4d0a4b7; old = the ladder before it)
        line:  <expression tokens separated by blanks> [ @@ <tokens that follow in the file> ]
               (default follow context:  ) ;  -- the end of `println( E );`)
        out :  OK <dump>                 parsed, exactly the follow context is left
@@ -12,7 +12,7 @@
               rt=1 iff parse tbl (pr tbl 0 e ++ ctx) = Ok (strip e, ctx)
    c02_model full [pinned|spec]      line: tree       out: the tree of (full e), same syntax
    c02_model eval                    line: v0,v1,... | tree     out: value or NONE
-   c02_model safe                    line: tokens [@@ follow]   out: 0/1 (safeb false)
+   c02_model safe                    line: tokens [@@ follow]   out: 0/1 (safeb)
    c02_model levels [pinned|spec]    out: one line per binary operator "<op> <level>"
 
    Dumps use the format of cbv_dump_ast (src/common/verif_hooks.h) with node-type names instead
@@ -222,7 +222,8 @@ let parse_iter tbl ts =
 
 let () =
   let sub = if Array.length Sys.argv > 1 then Sys.argv.(1) else "parse" in
-  let tbl = if Array.length Sys.argv > 2 && Sys.argv.(2) = "spec" then spec_table else pinned_table in
+  let tbl = if Array.length Sys.argv > 2 && Sys.argv.(2) = "spec" then spec_table
+            else if Array.length Sys.argv > 2 && Sys.argv.(2) = "old" then old_table else pinned_table in
   (* a fixed, small set of names first so that numbering is stable *)
   List.iter (fun s -> ignore (intern s)) [ "a"; "b"; "c"; "d"; "e"; "f"; "g"; "h"; "i"; "j"; "m"; "n"; "p"; "q"; "v"; "w"; "x"; "y"; "z" ];
   if sub = "levels" then begin
@@ -247,7 +248,7 @@ let () =
            let ts = pr tbl O e in
            let rt = (match parse_iter tbl (ts @ ctx) with Ok (e', rest) -> e' = strip e && rest = ctx | _ -> false) in
            Printf.printf "%s @@@ wf=%s safe=%s nogtlp=%s rt=%s @@@ %s\n" (text_of_toks ts) (b2s (wf e))
-             (b2s (safeb false (ts @ ctx))) (b2s (no_gt_lp (ts @ ctx))) (b2s rt) (dump (strip e))
+             (b2s (safeb (ts @ ctx))) (b2s (no_gt_lp (ts @ ctx))) (b2s rt) (dump (strip e))
          | "full" -> print_endline (sx_of_expr (full (expr_of_sx (read_sx line))))
          | "eval" ->
            (match String.index_opt line '|' with
@@ -267,7 +268,7 @@ let () =
               (match eval_fn fn env e with Some z -> print_endline (string_of_int (int_of_z z)) | None -> print_endline "NONE"))
          | "safe" ->
            let (ts, ctx) = split_ctx line in
-           print_endline (b2s (safeb false (ts @ ctx)))
+           print_endline (b2s (safeb (ts @ ctx)))
          | _ -> print_endline "?"
        with Failure m -> print_endline ("BAD " ^ m) | Not_found -> print_endline "BAD notfound")
     done
